@@ -96,10 +96,30 @@ def run(ck, facts):
     spec = json.load(open(os.path.join(C.VERIF, "spec", "panic_arms.json")))
     tri = spec["arms"]
     seen = set()
+
+    def loose(k_):
+        fn_, en_, vs_ = k_.rsplit("/", 2)
+        return ("::".join(C.norm_path(fn_).split("::")[:2]), en_, vs_)
+    by_loose = {}
+    for k_ in tri:
+        by_loose.setdefault(loose(k_), []).append(k_)
+    exact_now = {key_of(e) for e in inv}
     for e in inv:
         k = key_of(e)
         seen.add(k)
         t = tri.get(k)
+        if not t:
+            # the arm may have moved into a helper of the same backend (same enum, same variants): reuse its triage unless that was site-specific
+            cands = [c for c in by_loose.get(loose(k), []) if c not in exact_now] or by_loose.get(loose(k), [])
+            t2 = tri.get(cands[0]) if cands else None
+            if t2 and t2["class"] in ("excluded-by-property", "impossible-by-type", "impossible-by-gate"):
+                seen.add(cands[0])
+                ck.ok("R1", k, "%s (triaged as %s): %s" % (t2["class"], cands[0], t2.get("why", "")), e["loc"])
+                continue
+            if t2 and t2["class"] == "finding":
+                seen.add(cands[0])
+                ck.bad("R1", cands[0], "%s! reachable for accepted input: %s" % (e["macro"], t2.get("why", "")), e["loc"])
+                continue
         if not t:
             ck.bad("R1", k, "untriaged %s! arm (\"%s\") selected by %s::%s — can an accepted bridge reach it?" % (e["macro"], e["msg"], e["enum"], e["values"]), e["loc"])
             continue
